@@ -51,16 +51,19 @@ fn s_sub(l: &mut Lua, base: usize) -> R<usize> {
 
 fn s_upper(l: &mut Lua, base: usize) -> R<usize> {
     let s = l.check_str(base, 0, "upper")?;
+    l.tick_n((s.len() / 64) as u64)?;
     l.ret1(base, Value::bytes(s.to_ascii_uppercase()))
 }
 
 fn s_lower(l: &mut Lua, base: usize) -> R<usize> {
     let s = l.check_str(base, 0, "lower")?;
+    l.tick_n((s.len() / 64) as u64)?;
     l.ret1(base, Value::bytes(s.to_ascii_lowercase()))
 }
 
 fn s_reverse(l: &mut Lua, base: usize) -> R<usize> {
     let s = l.check_str(base, 0, "reverse")?;
+    l.tick_n((s.len() / 64) as u64)?;
     let mut v = s.to_vec();
     v.reverse();
     l.ret1(base, Value::bytes(v))
@@ -85,6 +88,7 @@ fn s_rep(l: &mut Lua, base: usize) -> R<usize> {
     if total > MAX_STRING as u128 {
         return Err(mem_error(l));
     }
+    l.tick_n((total / 64) as u64)?;
     let mut out = Vec::with_capacity(total as usize);
     for i in 0..n {
         out.extend_from_slice(&s);
@@ -144,7 +148,13 @@ struct MatchState<'a> {
     level: usize,
     capture: [(usize, isize); MAXCAPTURES],
     matchdepth: i32,
+    /// remaining matcher steps before the instruction budget is exhausted
+    steps_left: u64,
+    steps_used: u64,
 }
+
+const BUDGET_MARK: &str = "\u{0}budget";
+const STEPS_PER_TICK: u64 = 8;
 
 type MR<T> = Result<T, String>;
 
@@ -172,7 +182,15 @@ fn is_class(c: u8, cl: u8) -> bool {
 
 impl<'a> MatchState<'a> {
     fn new(src: &'a [u8], pat: &'a [u8]) -> MatchState<'a> {
-        MatchState { src, pat, level: 0, capture: [(0, 0); MAXCAPTURES], matchdepth: MAXCCALLS }
+        MatchState {
+            src,
+            pat,
+            level: 0,
+            capture: [(0, 0); MAXCAPTURES],
+            matchdepth: MAXCCALLS,
+            steps_left: u64::MAX,
+            steps_used: 0,
+        }
     }
 
     fn reprep(&mut self) {
@@ -247,6 +265,15 @@ impl<'a> MatchState<'a> {
         !sig
     }
 
+    #[inline]
+    fn step(&mut self) -> MR<()> {
+        self.steps_used += 1;
+        if self.steps_used > self.steps_left {
+            return Err(BUDGET_MARK.into());
+        }
+        Ok(())
+    }
+
     fn single_match(&self, s: usize, p: usize, ep: usize) -> bool {
         if s >= self.src.len() {
             return false;
@@ -291,6 +318,7 @@ impl<'a> MatchState<'a> {
         while self.single_match(s + i as usize, p, ep) {
             i += 1;
         }
+        self.steps_used += (i as u64) / 4;
         while i >= 0 {
             if let Some(r) = self.do_match(s + i as usize, ep + 1)? {
                 return Ok(Some(r));
@@ -306,6 +334,7 @@ impl<'a> MatchState<'a> {
             if let Some(r) = self.do_match(s, ep + 1)? {
                 return Ok(Some(r));
             } else if self.single_match(s, p, ep) {
+                self.step()?;
                 s += 1;
             } else {
                 return Ok(None);
@@ -371,6 +400,7 @@ impl<'a> MatchState<'a> {
         if self.matchdepth < 0 {
             return Err("pattern too complex".into());
         }
+        self.step()?;
         let r = self.do_match_inner(s, p);
         self.matchdepth += 1;
         r
@@ -493,6 +523,28 @@ impl<'a> MatchState<'a> {
     }
 }
 
+fn begin(l: &Lua, ms: &mut MatchState) {
+    ms.steps_left = l.limit.saturating_sub(l.used).saturating_mul(STEPS_PER_TICK).saturating_add(STEPS_PER_TICK);
+    ms.steps_used = 0;
+}
+
+/// charge the matcher's work to the instruction budget
+fn charge(l: &mut Lua, ms: &mut MatchState) -> R<()> {
+    let n = ms.steps_used / STEPS_PER_TICK;
+    ms.steps_left = ms.steps_left.saturating_sub(ms.steps_used);
+    ms.steps_used = 0;
+    l.tick_n(n)
+}
+
+fn match_err(l: &mut Lua, m: String) -> Box<crate::interp::LuaErrInner> {
+    if m == BUDGET_MARK {
+        l.used = l.limit.saturating_add(1);
+        l.make_error(ErrorKind::Budget, Value::str(b"instruction budget exhausted"))
+    } else {
+        l.native_error(m)
+    }
+}
+
 fn no_specials(p: &[u8]) -> bool {
     !p.iter().any(|c| b"^$*+?.([%-".contains(c))
 }
@@ -520,6 +572,7 @@ fn str_find_aux(l: &mut Lua, base: usize, find: bool) -> R<usize> {
     }
     let init = (init - 1) as usize;
     if find && (l.arg(base, 3).truthy() || no_specials(&p)) {
+        l.tick_n((s.len() / 64) as u64)?;
         if let Some(pos) = memfind(&s[init..], &p) {
             let st = init + pos;
             return l.ret2(base, Value::Int(st as i64 + 1), Value::Int((st + p.len()) as i64));
@@ -529,17 +582,19 @@ fn str_find_aux(l: &mut Lua, base: usize, find: bool) -> R<usize> {
     let anchor = p.first() == Some(&b'^');
     let pat: &[u8] = if anchor { &p[1..] } else { &p };
     let mut ms = MatchState::new(&s, pat);
+    begin(l, &mut ms);
     let mut s1 = init;
     loop {
         ms.reprep();
-        let r = ms.do_match(s1, 0).map_err(|m| l.native_error(m))?;
+        let r = ms.do_match(s1, 0).map_err(|m| match_err(l, m))?;
+        charge(l, &mut ms)?;
         if let Some(e) = r {
             if find {
                 let mut vals = vec![Value::Int(s1 as i64 + 1), Value::Int(e as i64)];
-                vals.extend(ms.get_captures(None).map_err(|m| l.native_error(m))?);
+                vals.extend(ms.get_captures(None).map_err(|m| match_err(l, m))?);
                 return l.retn(base, vals);
             } else {
-                let vals = ms.get_captures(Some((s1, e))).map_err(|m| l.native_error(m))?;
+                let vals = ms.get_captures(Some((s1, e))).map_err(|m| match_err(l, m))?;
                 return l.retn(base, vals);
             }
         }
@@ -581,9 +636,11 @@ fn gmatch_aux(l: &mut Lua, base: usize, nc: &NClosure) -> R<usize> {
         (s, p, src, lm)
     };
     let mut ms = MatchState::new(&s, &p);
+    begin(l, &mut ms);
     while src <= s.len() {
         ms.reprep();
-        let r = ms.do_match(src, 0).map_err(|m| l.native_error(m))?;
+        let r = ms.do_match(src, 0).map_err(|m| match_err(l, m))?;
+        charge(l, &mut ms)?;
         if let Some(e) = r {
             if e as i64 != lastmatch {
                 {
@@ -591,7 +648,7 @@ fn gmatch_aux(l: &mut Lua, base: usize, nc: &NClosure) -> R<usize> {
                     up[2] = Value::Int(e as i64);
                     up[3] = Value::Int(e as i64);
                 }
-                let vals = ms.get_captures(Some((src, e))).map_err(|m| l.native_error(m))?;
+                let vals = ms.get_captures(Some((src, e))).map_err(|m| match_err(l, m))?;
                 return l.retn(base, vals);
             }
         }
@@ -614,11 +671,11 @@ fn s_gmatch(l: &mut Lua, base: usize) -> R<usize> {
 fn add_value(l: &mut Lua, ms: &MatchState, out: &mut Vec<u8>, s: usize, e: usize, repl: &Value) -> R<()> {
     let v = match repl {
         Value::Table(_) => {
-            let k = ms.get_onecapture(0, s, e).map_err(|m| l.native_error(m))?;
+            let k = ms.get_onecapture(0, s, e).map_err(|m| match_err(l, m))?;
             l.index_value(repl.clone(), &k)?
         }
         f if f.is_function() => {
-            let caps = ms.get_captures(Some((s, e))).map_err(|m| l.native_error(m))?;
+            let caps = ms.get_captures(Some((s, e))).map_err(|m| match_err(l, m))?;
             l.call_name = None;
             l.call1(f.clone(), &caps)?
         }
@@ -643,7 +700,7 @@ fn add_value(l: &mut Lua, ms: &MatchState, out: &mut Vec<u8>, s: usize, e: usize
                     } else if c == b'0' {
                         out.extend_from_slice(&ms.src[s..e]);
                     } else {
-                        let v = ms.get_onecapture((c - b'1') as usize, s, e).map_err(|m| l.native_error(m))?;
+                        let v = ms.get_onecapture((c - b'1') as usize, s, e).map_err(|m| match_err(l, m))?;
                         out.extend_from_slice(tostring_plain(&v).as_bytes());
                         if let Value::Str(x) = &v {
                             // tostring_plain is lossy for non-UTF-8: redo exactly
@@ -677,8 +734,7 @@ fn s_gsub(l: &mut Lua, base: usize) -> R<usize> {
         Value::Str(_) | Value::Int(_) | Value::Float(_) | Value::Table(_) => {}
         f if f.is_function() => {}
         _ => {
-            let got = l.arg_typename(base, 2);
-            return Err(l.arg_error(2, "gsub", &format!("string/function/table expected, got {}", got)));
+            return Err(l.arg_error(2, "gsub", "string/function/table expected"));
         }
     }
     let srcl = src.len();
@@ -690,9 +746,12 @@ fn s_gsub(l: &mut Lua, base: usize) -> R<usize> {
     let mut s = 0usize;
     let mut n: i64 = 0;
     let mut lastmatch: Option<usize> = None;
+    begin(l, &mut ms);
     while n < max_s {
         ms.reprep();
-        let r = ms.do_match(s, 0).map_err(|m| l.native_error(m))?;
+        let r = ms.do_match(s, 0).map_err(|m| match_err(l, m))?;
+        charge(l, &mut ms)?;
+        l.tick()?;
         match r {
             Some(e) if Some(e) != lastmatch => {
                 n += 1;
